@@ -540,12 +540,12 @@ def common_meta(ctx):
         "in-process libmcount harness harness/c/mc_harness.c + vf/mch.py for the record-time line",
     ]
     ctx.assume = [
-        "one task, one session, user ENTRY/EXIT records only (no kernel/perf/event/LOST records); well-nested "
+        "one session, 1-3 tasks, user ENTRY/EXIT records only (no kernel/perf/event/LOST records); well-nested "
         "recordings with non-decreasing timestamps below 2^63; nesting below max_stack (1024)",
         "pattern matching of -F/-N/-T/-C/-H arguments (regex/glob, demangling) is not part of the model: options "
         "name whole functions",
         "not modelled: -Z/size=, -L (needs debug info), elapsed-time ranges, --trace=off, --kernel*, --tid, "
-        "exec/setjmp/fork fix-ups; fstack_enabled is global and shared by all tasks (single-task model)",
+        "exec/setjmp/fork fix-ups (tasks are threads of one process: no fork display-depth inheritance)",
     ]
 
 
@@ -1042,6 +1042,25 @@ def run(ctx):
     verdict2(ctx, rcases, res2)
     for (key, what, cfg, f, shape), c in zip(w2, [c for c in rcases if c["kind"].startswith("witness:")]):
         report_witness(ctx, key, what, c["rec_replay"] != c["opt_replay"], {"line": 2, "rcase": rcase_json(c)})
+    # ---- line 3: several tasks
+    todo = []
+    n3 = ctx.n(3, 25)
+    for kind in KINDS3:
+        for _ in range(n3 if kind != "plain" else 1):
+            cfg, fs, tags = gen_mcase(rng, kind)
+            todo.append((kind, cfg, fs, tags))
+    mcases = line3(ctx, objdir, todo)
+    res3 = evaluate3(ctx, mcases)
+    inside3 = set(res3["in_spec"]) if res3 else set()
+    for i, c in enumerate(mcases):
+        size = sum(x.size() for f in c["forests"] for x in f)
+        ctx.case(key=("mt", json.dumps(cfg_json(c["cfg"]), sort_keys=True),
+                      json.dumps([[x.to_json() for x in f] for f in c["forests"]])),
+                 nontrivial=len(c["out"]["chrome"]) != 2 * size,
+                 tags=["several-tasks", "mt:" + c["kind"]] + [t for t in c["tags"] if t.startswith(("tasks=", "equal-"))]
+                 + (["mt:in-spec-class"] if i in inside3 else []),
+                 size=size, sample=mcase_json(c) if i == 1 else None)
+    verdict3(ctx, mcases, res3)
 
 
 def replay(ctx, obj):
@@ -1057,6 +1076,17 @@ def replay(ctx, obj):
             ctx.case(key="replay", sample=rcase_json(c))
             ctx.log("replayed: record", c["rec_replay"], "vs replay", c["opt_replay"])
         verdict2(ctx, rcases, res2)
+        return
+    mj = obj.get("mcase")
+    if mj:
+        cfg = cfg_unjson(mj["cfg"])
+        fs = [[Call.from_json(x) for x in f] for f in mj["forests"]]
+        mcases = line3(ctx, objdir, [("replay", cfg, fs, [])])
+        res3 = evaluate3(ctx, mcases)
+        for c in mcases:
+            ctx.case(key="replay", sample=mcase_json(c))
+            ctx.log("replayed (several tasks): options", " ".join(cli_opts(cfg)), "outputs", c["out"])
+        verdict3(ctx, mcases, res3)
         return
     cj = obj.get("case")
     if not cj:
